@@ -65,6 +65,12 @@ def run(ctx):
                         cn = re.sub(r"\b(2[0-9])(0[1-9]|1[0-2])([0-2][0-9])", lambda m: rng.choice(["50", "49", "99", "00", "24", "68", "69"]) + m.group(2) + m.group(3), cn, count=1)
                     t3.append((tag, cn))
                 msgs.append((c, mtgen.rebuild(pre, t3, post), "mutant"))
+            # every date-bearing field at the edges of the century window (a JSON codec with another pivot than the MT parser)
+            for y in ("50", "69", "70", "49"):
+                t3 = [(tag, re.sub(r"^(C|D|RC|RD)?\d\d(0[1-9]|1[0-2])([0-2]\d|3[01])", lambda m: (m.group(1) or "") + y + m.group(2) + m.group(3), cn, count=1)
+                       if tag in ("13D", "30", "32A", "32C", "32D", "60F", "60M", "62F", "62M", "64", "65", "61") else cn) for tag, cn in toks]
+                if t3 != toks:
+                    msgs.append((c, mtgen.rebuild(pre, t3, post), "window-year"))
             body_s = mtgen.render(toks)
             msgs.append((c, wrap(c, body_s, "{2:O%s1200260930BANKDEFFAXXX00000000002609301201N}" % c), "output-b2"))
             msgs.append((c, wrap(c, body_s, None, "{3:{103:EBA}{113:URGT}{108:MUR123}{119:STP}{121:7d1c3a2e-9c3b-4f5a-8d2e-1b2c3d4e5f60}}", "{5:{CHK:123456789ABC}{TNG:}}"), "b3-b5"))
